@@ -30,7 +30,8 @@ def build(cfg):
         "gradient": {"number_of_perturbations": P, "perturbation_min_success": P if fclass == "pert" else 1,
                      "perturbation_magnitudes": 0.01},
         "optimizer": {"method": "rvscript/script",
-                      "options": {"script": [{"f": "f" in r, "g": "g" in r, "x": None} for r in cfg["reqs"]]}},
+                      "options": {"script": [{"f": "f" in r, "g": "g" in r, "x": None,
+                                              "batch": [[0.5, 1.0], [0.25, 2.0]] if r == "fb" else None} for r in cfg["reqs"]]}},
     }
     if cfg["maxfun"]:
         c["optimizer"]["max_functions"] = cfg["maxfun"]
@@ -68,7 +69,7 @@ def drive(sc):
         idx = state["call"]
         state["pending"] = idx
         if unpert.any():
-            state["nfun"] += 1
+            state["nfun"] += int(unpert.sum()) // R
         if idx == failAt and fclass == "exc":
             raise ValueError("boom")
         obj = (variables ** 2).sum(axis=1, keepdims=True) + 0.1 * context.realizations[:, None]
@@ -94,7 +95,7 @@ def drive(sc):
 
     pm = PluginManager()
     pm.add_plugin("optimizer", "rvscript", ScriptPlugin())
-    ScriptPlugin.reset([], allow_nan=bool(cfg["allownan"]))
+    ScriptPlugin.reset([], allow_nan=bool(cfg["allownan"]), parallel="fb" in cfg["reqs"])
     ctx = OptimizerContext(evaluator=evaluator, plugin_manager=pm)
     ctx.add_observer(EventType.FINISHED_EVALUATION, finished)
     plan = Plan(ctx)
